@@ -5,6 +5,7 @@ pub mod bg4;
 pub mod xorb;
 pub mod shard;
 pub mod shard_ops;
+pub mod manager;
 pub mod deduper;
 pub mod session;
 pub mod session_faults;
@@ -22,6 +23,8 @@ pub fn run(suite: &str, ctx: &mut Ctx) -> bool {
         "shard" => shard::run(ctx),
         "shard_ops" => shard_ops::run_ops(ctx),
         "keyed" => shard_ops::run_keyed(ctx),
+        "manager" => manager::run_parent(ctx),
+        "manager-child" => manager::run_child(ctx),
         "singleflight" => singleflight::run(ctx),
         "reconstruct" => reconstruct::run(ctx),
         "cache_seq" => cache_seq::run(ctx),
